@@ -28,9 +28,10 @@ NAMES = ["", "\n", "a", "b", "ab", "ba", "c", "abc", "x.y", "test_1 (m.T)", "tes
 NEVER = "!(?!)"   # a negated pattern that matches nothing
 # patterns whose meaning depends on being compiled on their own: inline flags, group numbers and names,
 # verbose mode, look-around, anchors inside alternations
-FEATURES = ["(?i)A", "(?i)b", "(a)\\1", "(b)\\1", "(?P<n>b)(?P=n)", "!(?i)C", "!(b)\\1", "(?x) a b", "a(?=b)",
+# a negated pattern is ONE '!' followed by a regular expression - which may itself begin with a literal '!'
+FEATURES = ["!!a", "!!", "!!!b", "(?i)A", "(?i)b", "(a)\\1", "(b)\\1", "(?P<n>b)(?P=n)", "!(?i)C", "!(b)\\1", "(?x) a b", "a(?=b)",
             "(?s)^.$", "(?m)^b$", "!(?i)^AB$", "a|", "(?i)", "!(?P<n>a)(?P=n)"]
-FEATURE_NAMES = ["A", "B", "aa", "bb", "AB", "Ab", "C", "a b", "a\nb", "TEST_1 (m.T)"]
+FEATURE_NAMES = ["A", "B", "aa", "bb", "AB", "Ab", "C", "a b", "a\nb", "TEST_1 (m.T)", "a", "x!a", "!!b"]
 
 
 def _real(patterns, name):
